@@ -50,7 +50,9 @@ FINDINGS = {
     "K15": {"props": ["C11"],
             "what": "an assignment through a structure that is an element of an array member of a union does not reach the "
                     "union (union A { S s[2]; uint16 w[3]; }: a.s[0].x = 0xAAAA leaves a.w and the other views as they "
-                    "were while dumps() writes the new bytes; only structures that are members themselves are proxied)"},
+                    "were while dumps() writes the new bytes; only structures that are members themselves are proxied); second "
+                    "witness of the same mechanism: a scalar element changed in place (union B { uint8 b[4]; uint32 w; }: "
+                    "b.b[-1] = 9 leaves b.w as it was)"},
     "K14": {"props": ["C17"],
             "what": "a structure whose enum or flag field holds a plain integer equals the one holding the member (and "
                     "the parse of its own dump) but hashes differently: members compare equal to their integer value yet "
